@@ -2,8 +2,9 @@
 # tools/dettest.sh <prop> <runs> : determinism proof on a sample - the same run indices executed in
 # several fresh processes at GOMAXPROCS 1/4/16; per-run log hashes and violation counts must agree.
 PROP=$1; N=${2:-200}
-BIN=/verif/bin/verifsim.det
-cd /verif && ./build.sh $BIN || exit 2
+HERE=$(cd "$(dirname "$0")/.." && pwd)
+BIN=$HERE/bin/verifsim.det.$$
+cd $HERE && ./build.sh $BIN || exit 2
 D=$(mktemp -d /dev/shm/dettest.XXXX)
 i=0
 for gmp in 1 4 16 4; do
